@@ -1693,6 +1693,9 @@ impl Scenario for QueueShutdown {
     fn property(&self) -> &'static str {
         "C05"
     }
+    fn weight(&self, _t: Tier) -> u32 {
+        4
+    }
     fn generate(&self, rng: &mut Rng, tier: Tier) -> Value {
         gen_c05(rng, tier)
     }
